@@ -18,11 +18,11 @@ ASSUMPTIONS = [
     "recursively and in order",
     "comparing a node with itself is outside the statement ('two distinct trees')",
 ]
-REQUIRED = ["pairs_with_identical_ids", "pairs_equal", "pairs_different", "difference_at_child_position_ge1", "difference_at_depth_ge2", "symmetric_checked", "subtree_pairs", "pairs_compared_before_the_edit", "inherited_map_pairs"]
+REQUIRED = ["pairs_with_identical_ids", "pairs_equal", "pairs_different", "difference_at_child_position_ge1", "difference_at_depth_ge2", "symmetric_checked", "subtree_pairs", "pairs_compared_before_the_edit", "inherited_map_pairs", "pairs_compared_outside_the_registry"]
 EXHAUSTIVE = {"quick": False, "thorough": False}
 
 KINDS = ("attr_reorder", "extras_reorder", "ns_reorder", "attr_type", "name", "content", "content_none", "tail", "prefix", "attr_add", "attr_del", "attr_val", "extras_add", "extras_val",
-         "ns_add", "ns_del", "ns_val", "child_append", "child_insert0", "child_remove_last", "child_remove_first", "child_swap", "reparent_up", "reparent_down", "attr_inplace", "extras_inplace", "ns_inplace", "content_recomposed", "tail_recomposed")
+         "ns_add", "ns_del", "ns_val", "child_append", "child_insert0", "child_remove_last", "child_remove_first", "child_swap", "reparent_up", "reparent_down", "attr_inplace", "extras_inplace", "ns_inplace", "content_recomposed", "tail_recomposed", "content_as_reference", "tail_as_reference")
 
 
 def plan(tier, seed):
@@ -154,6 +154,17 @@ def apply_difference(rng, n, kind):
         if other == cur:
             return False
         if kind == "content_recomposed":
+            n.content = other
+        else:
+            n.tail = other
+    elif kind in ("content_as_reference", "tail_as_reference"):
+        # one character written as the numeric character reference that would stand for it in XML: in a node's text that is other text
+        cur = n.content if kind == "content_as_reference" else n.tail
+        if not cur:
+            return False
+        i = rng.randrange(len(cur))
+        other = cur[:i] + (f"&#{ord(cur[i])};" if rng.random() < 0.5 else f"&#x{ord(cur[i]):X};") + cur[i + 1:]
+        if kind == "content_as_reference":
             n.content = other
         else:
             n.tail = other
@@ -337,6 +348,20 @@ def run(ctx, params):
             ask(ctx, x, sub, lambda: {"tree": snapshot.to_plain(x), "kind": "subtree-vs-copy-under-other-parent"}, "subtree-vs-copy-under-other-parent")
             ctx.count("subtree_pairs")
             emlkit.discard(holder)
+        if i % 6 == 1:
+            # two equal trees that are no longer in the registry (deleted by id while handles were kept, or never registered): what the
+            # registry holds says nothing about whether two trees are equal
+            u, v = snapshot.from_plain(Node, snapshot.to_plain(t)), snapshot.from_plain(Node, snapshot.to_plain(t))
+            for r_ in (u, v):
+                for x in snapshot.walk(r_):
+                    if Node.store.get(x.id) is x:
+                        del Node.store[x.id]
+            saved = dict(Node.store)
+            if i % 12 == 1:
+                Node.store.clear()
+            ask(ctx, u, v, lambda: {"tree": snapshot.to_plain(t), "kind": "unregistered-pair"}, "unregistered-pair")
+            Node.store.update(saved)
+            ctx.count("pairs_compared_outside_the_registry")
         sweep(ctx, t, exhaustive=(size <= 12 and ctx.tier == "thorough") or size <= 6)
         if prev is not None:
             ask(ctx, t, prev, lambda: {"tree": snapshot.to_plain(t), "other": snapshot.to_plain(prev), "kind": "unrelated"},
@@ -359,6 +384,11 @@ def replay(ctx, witness):
         o = snapshot.from_plain(Node, witness["other"])
     else:
         o = t.copy()
+        if witness.get("kind") == "unregistered-pair":
+            saved = dict(Node.store)
+            Node.store.clear()
+            ask(ctx, t, o, lambda: witness, "unregistered-pair")
+            Node.store.update(saved)
         if witness.get("kind", "").startswith("subtree"):
             holder = Node("verifOtherParent")
             wrapper = Node("verifParent")
